@@ -209,7 +209,35 @@ func Ite(c, a, b Term) Term {
 			return Not(c)
 		}
 	}
-	return app(a.Sort, "ite", c, a, b)
+	t := app(a.Sort, "ite", c, a, b)
+	iteMu.Lock()
+	iteSorts[t.S] = a.Sort
+	iteMu.Unlock()
+	return t
+}
+
+// the sort of every ite term built (needed to name such a term later)
+var iteSorts = map[string]string{}
+var iteMu sync.Mutex
+
+// nameFor introduces (once) a defined name for a term whose sort is known.
+func (c *SMTCtx) nameFor(s string) string {
+	if n, ok := c.named[s]; ok {
+		return n
+	}
+	iteMu.Lock()
+	srt, ok := iteSorts[s]
+	iteMu.Unlock()
+	if !ok {
+		return ""
+	}
+	c.nfresh++
+	name := fmt.Sprintf("pat!%d", c.nfresh)
+	c.lines = append(c.lines, fmt.Sprintf("(declare-const %s %s)", name, srt))
+	c.lines = append(c.lines, fmt.Sprintf("(assert (= %s %s))", name, s))
+	c.defs[name] = s
+	c.named[s] = name
+	return name
 }
 
 func arith(op string, a, b Term) Term {
@@ -372,14 +400,16 @@ type SMTCtx struct {
 	declared map[string]bool
 	defs     map[string]string // defined name -> its definition
 	defLine  map[string]int    // defined name -> index of its line
+	sortOfTerm map[string]string // terms built through Ite: their sort (for naming)
+	named    map[string]string
 }
 
 func newCtx() *SMTCtx {
-	return &SMTCtx{declared: map[string]bool{}, defs: map[string]string{}, defLine: map[string]int{}}
+	return &SMTCtx{declared: map[string]bool{}, defs: map[string]string{}, defLine: map[string]int{}, sortOfTerm: iteSorts, named: map[string]string{}}
 }
 
 func (c *SMTCtx) clone() *SMTCtx {
-	n := &SMTCtx{lines: append([]string(nil), c.lines...), nfresh: c.nfresh, declared: map[string]bool{}, defs: c.defs, defLine: c.defLine}
+	n := &SMTCtx{lines: append([]string(nil), c.lines...), nfresh: c.nfresh, declared: map[string]bool{}, defs: c.defs, defLine: c.defLine, sortOfTerm: c.sortOfTerm, named: c.named}
 	for k := range c.declared {
 		n.declared[k] = true
 	}
@@ -429,6 +459,15 @@ func (c *SMTCtx) Define(hint string, t Term) Term {
 	}
 	c.nfresh++
 	name := fmt.Sprintf("%s!%d", sanitize(hint), c.nfresh)
+	if strings.HasPrefix(t.Sort, "(Array ") && strings.Contains(t.S, "(ite ") {
+		// array-valued merges are named by a constant and an equation (not a macro): solvers expand macros, and a
+		// quantifier pattern over the expanded term would contain boolean structure, which patterns must not
+		c.lines = append(c.lines, fmt.Sprintf("(declare-const %s %s)", name, t.Sort))
+		c.lines = append(c.lines, fmt.Sprintf("(assert (= %s %s))", name, t.S))
+		c.defs[name] = t.S
+		c.defLine[name] = len(c.lines) - 2
+		return Term{name, t.Sort}
+	}
 	c.lines = append(c.lines, fmt.Sprintf("(define-fun %s () %s %s)", name, t.Sort, t.S))
 	c.defs[name] = t.S
 	c.defLine[name] = len(c.lines) - 1
@@ -439,7 +478,59 @@ func (c *SMTCtx) Assert(t Term) {
 	if t.IsTrue() {
 		return
 	}
+	// split conjunctions (also under an implication) so that slicing can drop the irrelevant conjuncts
+	if args, ok := splitApp(t.S, "and"); ok {
+		for _, a := range args {
+			c.Assert(Term{a, SBool})
+		}
+		return
+	}
+	if args, ok := splitApp(t.S, "=>"); ok && len(args) == 2 {
+		if conj, ok := splitApp(args[1], "and"); ok {
+			for _, a := range conj {
+				c.Assert(Term{"(=> " + args[0] + " " + a + ")", SBool})
+			}
+			return
+		}
+	}
 	c.lines = append(c.lines, "(assert "+t.S+")")
+}
+
+// splitApp splits "(op a b c)" into its top-level arguments.
+func splitApp(s, op string) ([]string, bool) {
+	prefix := "(" + op + " "
+	if !strings.HasPrefix(s, prefix) || !strings.HasSuffix(s, ")") {
+		return nil, false
+	}
+	body := s[len(prefix) : len(s)-1]
+	var out []string
+	depth := 0
+	start := 0
+	for i := 0; i < len(body); i++ {
+		switch body[i] {
+		case '(':
+			depth++
+		case ')':
+			depth--
+			if depth < 0 {
+				return nil, false
+			}
+		case ' ':
+			if depth == 0 {
+				if i > start {
+					out = append(out, body[start:i])
+				}
+				start = i + 1
+			}
+		}
+	}
+	if depth != 0 {
+		return nil, false
+	}
+	if start < len(body) {
+		out = append(out, body[start:])
+	}
+	return out, true
 }
 
 func (c *SMTCtx) Mark() int { return len(c.lines) }
@@ -603,4 +694,15 @@ func (c *SMTCtx) Expand(t Term) Term {
 		return Term{d, t.Sort}
 	}
 	return t
+}
+
+// solveWith runs one solver once.
+func solveWith(solver, name, query string, timeoutS int) SolveResult {
+	dir := scratch()
+	file := filepath.Join(dir, sanitize(name)+".smt2")
+	if err := os.WriteFile(file, []byte(query), 0o644); err != nil {
+		return SolveResult{Status: "error", Raw: err.Error()}
+	}
+	defer os.Remove(file)
+	return runOne(context.Background(), solver, file, timeoutS, false)
 }
